@@ -70,7 +70,7 @@ Inductive case :=
 Definition check (c : case) : bool :=
   match c with
   | Case ops observed => list_eqb out_eqb (outs init ops) observed
-  | SCase ops observed => list_eqb sout_eqb (souts sinit ops) observed
+  | SCase ops observed => list_eqb sout_eqb (souts_now sinit ops) observed
   | XCase def ops observed => xwf (xinit def) ops && list_eqb xout_eqb (xouts (xinit def) ops) observed
   end.
 
